@@ -53,6 +53,23 @@ echo "end $GROG_TARGET" >> "$VTRACE"`})
 	return s
 }
 
+// orphanSource: while armed, the victim's shell starts a long-lived child and then interrupts grog; the
+// child outlives the interrupted shell (and grog). The next build must not have to wait for it.
+func orphanSource(sig string) *hist.Source {
+	s := &hist.Source{Files: map[string]hist.File{"p/in.txt": {Content: "in"}}, Toml: "num_workers = 1\n"}
+	s.Targets = append(s.Targets, hist.Target{Pkg: "p", Name: "victim", Inputs: []string{"in.txt"}, Outputs: []string{"victim.out"}, Command: traceStart + `
+if [ -e "$VMARK/armed" ]; then
+  sleep 25 &
+  echo $! > "$VMARK/child.pid"
+  echo "signal sent-by-command" >> "$VTRACE"
+  kill -` + sig + ` $PPID
+  wait
+fi
+printf 'victim' > victim.out
+echo "end $GROG_TARGET" >> "$VTRACE"`})
+	return s
+}
+
 func c18Signals(c *Ctx) { signalEnumeration(c, true) }
 
 // signalEnumeration: withSelfSignal adds the scenarios in which the running command interrupts grog.
@@ -223,6 +240,52 @@ func signalEnumeration(c *Ctx, withSelfSignal bool) {
 
 	if !withSelfSignal {
 		return
+	}
+	// the interrupted command leaves a long-lived child behind: the next build acquires the lock all the same
+	for _, sig := range []string{"INT", "TERM"} {
+		s := orphanSource(sig)
+		box, err := hist.NewBox(base)
+		if err != nil {
+			c.R.BrokenCheck("%v", err)
+			return
+		}
+		s.Materialize(box.WS(), nil)
+		marks := filepath.Join(box.Dir, "marks")
+		os.MkdirAll(marks, 0o755)
+		os.WriteFile(filepath.Join(marks, "armed"), nil, 0o644)
+		rr := box.Run(grog, hist.RunOpts{Args: []string{"build", "//..."}, Env: map[string]string{"VMARK": marks}, Ceiling: 60 * time.Second})
+		name := fmt.Sprintf("SIG%s sent by a command that has a long-lived child process", sig)
+		replay := map[string]any{"scenario": name, "exit": rr.Exit, "trace": rr.Trace, "grog_output_tail": tail(rr.Output, 800)}
+		vio := func(sg, format string, a ...any) {
+			c.R.Violate(vc.Violation{Sig: sg, Detail: name + ": " + fmt.Sprintf(format, a...), Replay: replay})
+		}
+		if rr.TimedOut {
+			vio("C18:no-exit-after-signal:at:running-command-with-child", "grog did not exit within 60 s")
+		} else if rr.Exit == 0 {
+			vio("C18:exit-status-zero-after-signal:at:running-command-with-child", "grog exited 0 although it was interrupted while a command was running")
+		} else {
+			os.Remove(filepath.Join(marks, "armed"))
+			// the child sleeps for 25 s: a follow-up build that is still waiting after 15 s waits for the orphan
+			r2 := box.Run(grog, hist.RunOpts{Args: []string{"build", "//..."}, Env: map[string]string{"VMARK": marks}, Ceiling: 15 * time.Second})
+			replay["follow_up_output_tail"] = tail(r2.Output, 600)
+			if r2.TimedOut {
+				vio("C18:follow-up-build-waits-for-orphaned-child-of-interrupted-command", "the next build on the workspace did not finish within 15 s while a child process of the interrupted command was still alive (workspace lock held by the orphan?): %s", tail(r2.Output, 300))
+			} else if r2.Exit != 0 {
+				vio("C18:follow-up-build-fails:after-signal-at:running-command-with-child", "the next build exited %d: %s", r2.Exit, tail(r2.Output, 300))
+			}
+		}
+		if b, err := os.ReadFile(filepath.Join(marks, "child.pid")); err == nil {
+			var pid int
+			if _, err := fmt.Sscan(strings.TrimSpace(string(b)), &pid); err == nil && pid > 1 {
+				if p, err := os.FindProcess(pid); err == nil {
+					p.Kill()
+				}
+			}
+		}
+		c.R.AddCounts(1, 1, 2, 1)
+		c.R.Nontrivial("orphan|" + name)
+		c.R.Outcome(fmt.Sprintf("orphan %s exit=%d", sig, rr.Exit))
+		box.Remove()
 	}
 	// a signal while a command is running (the command interrupts grog itself)
 	for _, sig := range []string{"INT", "TERM"} {
